@@ -15,11 +15,19 @@ import (
 // changes at most reorders independent statements.
 
 func verifC20Changes(shape int, order []int) []schema.Change {
+	return verifC20ChangesNamed(shape, order, nil)
+}
+
+func verifC20ChangesNamed(shape int, order []int, names []string) []schema.Change {
 	sch := schema.New("s")
 	n := 3
 	tabs := make([]*schema.Table, n)
 	for i := range tabs {
-		tabs[i] = schema.NewTable(fmt.Sprintf("t%d", i)).SetSchema(sch).AddColumns(schema.NewIntColumn("id", "integer"), schema.NewIntColumn("r", "integer"))
+		name := fmt.Sprintf("t%d", i)
+		if names != nil {
+			name = names[i]
+		}
+		tabs[i] = schema.NewTable(name).SetSchema(sch).AddColumns(schema.NewIntColumn("id", "integer"), schema.NewIntColumn("r", "integer"))
 		tabs[i].SetPrimaryKey(schema.NewPrimaryKey(tabs[i].Columns[0]))
 		tabs[i].AddIndexes(schema.NewIndex(fmt.Sprintf("i%d", i)).AddColumns(tabs[i].Columns[1]))
 	}
@@ -87,6 +95,36 @@ func VerifHarness_C20_postgres() {
 	}
 	verifAssert(strings.Join(gotSorted, "\n") == strings.Join(refSorted, "\n"), "another declaration order changes at most the order of statements, never their content")
 	verifAssert(got.Reversible == ref.Reversible && got.Transactional == ref.Transactional, "plan flags are stable")
+}
+
+// Names family: the three table names are one symbolic byte each over {a, A, b, B, _} (pairwise
+// distinct): whatever the names are - including names differing only by letter case - the statements
+// are byte-identical for every map iteration order.
+func VerifHarness_C20_postgres_names() {
+	shape := []int{3, 0, 2}[verifChoice("shape", 3)]
+	names := make([]string, 3)
+	for i := range names {
+		names[i] = verifString(fmt.Sprintf("name%d", i), 1)
+		c := names[i][0]
+		verifAssume(verifOr(verifOr(c == 'a', c == 'A'), verifOr(verifOr(c == 'b', c == 'B'), c == '_')))
+	}
+	verifAssume(verifAnd(names[0] != names[1], verifAnd(names[0] != names[2], names[1] != names[2])))
+	ctx := context.Background()
+	verifMapOrder(false)
+	ref, err := DefaultPlan.PlanChanges(ctx, "p", verifC20ChangesNamed(shape, []int{0, 1, 2}, names))
+	verifAssert(err == nil, "reference plan")
+	refText, _ := verifPlanText(ref)
+	verifMapOrder(true)
+	got, err := DefaultPlan.PlanChanges(ctx, "p", verifC20ChangesNamed(shape, []int{0, 1, 2}, names))
+	verifMapOrder(false)
+	verifAssert(err == nil, "plan under another iteration order")
+	if err != nil {
+		return
+	}
+	gotText, _ := verifPlanText(got)
+	verifReach("compared")
+	verifObserve("plan", gotText)
+	verifAssert(gotText == refText, "same input gives byte-identical statements for every map iteration order, whatever the table names")
 }
 
 func VerifHarness_C20_postgres_scope() {
